@@ -14,7 +14,8 @@ RULE = ("every case encodes with SetTrackEncodedProperties(true) through the Enc
         "vertex only, seams in a later attribute only), bow-ties / k faces on an edge (non-manifold vertices and edges), "
         "degenerate and duplicate faces, isolated points, random sub-patches of small grids (many topology-split "
         "symbols, position-only and single-connectivity decoding), tori / genus-2 surfaces; (c) meshes whose points are "
-        "NOT deduplicated (a vertex referenced through several point ids with identical value indices).")
+        "NOT deduplicated (a vertex referenced through several point ids with identical value indices); the replays of the "
+        "two defects this check found (repaired by 85f04a5 and 49d6567) run first as regression cases.")
 THEOREM_BACKED = ("seq_counts* (sequential decoder model returns exactly the counts written), eb_point_count_fan / "
                   "dec_points_* (encoder's seam-sector formula == decoder's point creation on an abstract fan, under the "
                   "deduplicated-points hypothesis) and its witness that the hypothesis cannot be dropped")
@@ -23,35 +24,14 @@ EXPLANATION = ("the fan theorem is about an abstract model of the two counting p
                "the code only through the oracle on generated fans")
 TIMEOUT = 3000
 CHECKS = {"counts"}
-KNOWN_SIG = "eb-reported-points-non-deduplicated"
-KNOWN_SIG_PC = "encoder-api-point-cloud-counts-not-propagated"
 
 
 def finish(g, toks, info, tags, with_model):
     toks = [t for t in toks if t != "track=1"] + ["track=1"]
     info["track"] = True
     checks = CHECKS | ({"corr"} if with_model else set())
-    feats = topo2.features(g)
     c = e2e.make_case(g, toks, info, checks, tags=tuple(e2etags.option_tags(g, toks, info)) + tuple(tags))
     c.mtag = e2etags.result_tag(c)
-    base = c.oracle
-
-    def oracle(hout, case):
-        v = base(hout, case)
-        if v is not None and v[0] == "encoded-counts" and "topo:non-deduplicated-points" in feats:
-            r = e2e.parse_encdec(hout)
-            g2, _ = G.parse_geom(r["dec"], 2)
-            if e2e.stream_class(r["hex"], g.is_mesh) == "eb" and r["nep"] > g2.num_points and r["nef"] == len(g2.faces):
-                # the input class of the recorded finding: Edgebreaker, non-deduplicated points, too many points reported
-                return (KNOWN_SIG, v[1])
-        if v is not None and v[0] == "encoded-counts" and not g.is_mesh and not info.get("expert"):
-            r = e2e.parse_encdec(hout)
-            if r["nep"] == 0 and r["nef"] == 0:
-                # the input class of the recorded finding: point cloud through Encoder::EncodePointCloudToBuffer
-                # (the counts of the internal ExpertEncoder are never copied): reported 0
-                return (KNOWN_SIG_PC, v[1])
-        return v
-    c.oracle = oracle
     if not with_model:
         c.model = False
         c.spec = None
@@ -158,7 +138,8 @@ def eb_options(rng, g, allow_seq=False):
 
 
 def generate(rng, tier):
-    cases = []
+    # the replays of the two repaired defects (fixed: 85f04a5, 49d6567) run first as regression cases
+    cases = replay_cases(REGRESSION_REPLAYS)
     thorough = tier == "thorough"
     mul = 6 if thorough else 1
     # ---- (a) random geometries, all methods, with the model on the sequential streams
@@ -233,14 +214,23 @@ def generate(rng, tier):
         g = seam_mesh(rng, ("fan" if len(f) < 8 else "grid", nv, topo2._finish(rng, f)), natt=rng.randint(1, 2), no_dedup=True, seam_rate=rng.choice([0.0, 0.1]))
         toks, info = eb_options(rng, g, allow_seq=True)
         cases.append(finish(g, toks, info, ("gen:non-deduplicated-points",), False))
-    # the recorded replay of the finding (4-triangle closed fan, centre referenced through point ids 0 and 5)
-    cases.append(replay_cases([FINDING_REPLAY])[0])
     return cases
 
 
+# 4-triangle closed fan whose centre is referenced through point ids 0 and 5 (reported 6, decoded 5 before 49d6567), at the
+# speeds / options that select per-attribute connectivity, and a point cloud through the Encoder API (reported 0 before 85f04a5)
 FINDING_REPLAY = ("encdec method=1 speed=0,0 track=1 -- mesh 6 4 0,1,2,0,2,3,5,3,4,5,4,1 2 "
                   "0 9 3 0 0 5 0,1,2,3,4,0 0000000000000000000000000000803f0000000000000000000000000000803f00000000000080bf000000000000000000000000000080bf00000000 none "
                   "4 5 1 0 1 5 0,1,2,3,4,0 0a0000000b0000000c0000000d0000000e000000 none")
+
+
+REGRESSION_REPLAYS = [
+    FINDING_REPLAY,
+    FINDING_REPLAY.replace("speed=0,0", "speed=5,5"),
+    FINDING_REPLAY.replace("method=1 speed=0,0", "expert=1 method=1 speed=9,9 g:split_mesh_on_seams=0"),
+    "encdec method=0 track=1 -- pc 1 0 - 1 0 9 3 0 0 1 id 3b590abee3ff0cbefa4944bf none",
+    "encdec method=1 q0=10 track=1 -- pc 2 0 - 1 0 9 3 0 0 2 id 3b590abee3ff0cbefa4944bf0000803f0000004000004040 none",
+]
 
 
 def replay_cases(lines):
